@@ -9,6 +9,7 @@ import (
 	"go/token"
 	"go/types"
 	"math"
+	"os"
 	"sync"
 
 	"golang.org/x/tools/go/ssa"
@@ -167,6 +168,9 @@ func (fr *frame) runDefers() {
 
 // rtPanic raises a Go run-time error in the target program.
 func (p *Path) rtPanic(msg string) {
+	if os.Getenv("SYMGO_TRACE_PANIC") != "" {
+		fmt.Fprintf(os.Stderr, "rtPanic: %s at %s%s\n", msg, p.where(), p.stackString())
+	}
 	panic(targetPanic{iface{t: p.eng.lp.rtErrType, v: "runtime error: " + msg}})
 }
 
@@ -588,17 +592,48 @@ func (p *Path) store(addr value, v value) {
 }
 
 func (p *Path) symLoad(a *symRef) value {
-	var r *Term
-	for i := len(a.elems) - 1; i >= 0; i-- {
-		e, ok := a.elems[i].(*Term)
+	ts := make([]*Term, len(a.elems))
+	for i, e := range a.elems {
+		t, ok := e.(*Term)
 		if !ok {
 			p.unsupported("symbolic index into non-scalar elements")
 		}
-		if r == nil {
-			r = e
-		} else {
-			r = p.tc.Ite(p.tc.Eq(a.idx, Const(BV(64), uint64(i))), e, r)
+		ts[i] = t
+	}
+	return p.selectTerm(ts, a.idx)
+}
+
+// selectTerm builds ts[idx] as an ite chain over runs of equal elements
+// (tables such as utf8.first have a dozen runs, not 256 distinct entries).
+func (p *Path) selectTerm(ts []*Term, idx *Term) *Term {
+	type run struct {
+		lo, hi int
+		v      *Term
+	}
+	var runs []run
+	same := func(a, b *Term) bool {
+		return a == b || (a.Op == OConst && b.Op == OConst && a.C == b.C && a.S == b.S)
+	}
+	for i, t := range ts {
+		if n := len(runs); n > 0 && same(runs[n-1].v, t) {
+			runs[n-1].hi = i
+			continue
 		}
+		runs = append(runs, run{i, i, t})
+	}
+	tc := &p.tc
+	r := runs[len(runs)-1].v
+	for i := len(runs) - 2; i >= 0; i-- {
+		ru := runs[i]
+		var c *Term
+		if ru.lo == ru.hi {
+			c = tc.Eq(idx, Const(idx.S, uint64(ru.lo)))
+		} else if ru.lo == 0 {
+			c = tc.Bin(OULe, idx, Const(idx.S, uint64(ru.hi)))
+		} else {
+			c = tc.And(tc.Bin(OULe, Const(idx.S, uint64(ru.lo)), idx), tc.Bin(OULe, idx, Const(idx.S, uint64(ru.hi))))
+		}
+		r = tc.Ite(c, ru.v, r)
 	}
 	return r
 }
@@ -689,15 +724,7 @@ func (p *Path) index(x value, idx *Term, signed bool) value {
 }
 
 func (p *Path) selectByte(b []*Term, i64 *Term) *Term {
-	var r *Term
-	for i := len(b) - 1; i >= 0; i-- {
-		if r == nil {
-			r = b[i]
-		} else {
-			r = p.tc.Ite(p.tc.Eq(i64, Const(BV(64), uint64(i))), b[i], r)
-		}
-	}
-	return r
+	return p.selectTerm(b, i64)
 }
 
 func (p *Path) slice(instr *ssa.Slice, x, lo, hi, max value) value {
@@ -962,7 +989,8 @@ func (p *Path) callBuiltin(caller *frame, fn *ssa.Builtin, args []value, site ss
 	case "ssa:deferstack":
 		return &caller.defers
 	}
-	panic("unknown built-in: " + fn.Name())
+	p.unsupported("built-in " + fn.Name())
+	return nil
 }
 
 // ---- select (only the interrupt-poll pattern) ----
